@@ -36,6 +36,8 @@ type SchedCheck struct {
 	Assume      []string
 	SkipFaulty  bool                                    // do not evaluate the oracle on cycles of cases with injected faults
 	Mutate      func(c *spec.Case, seed int64, idx int) // optional post-processing of the generated case
+	// Gen, if set, may supply the case of an index from another generator (nil = the profile's generator)
+	Gen func(seed int64, idx int, tier string) *spec.Case
 	Hooks       func(c *spec.Case, sink *[]run.Violation, st *oracle.Stats) sched.Hooks
 	AfterCase   func(c *spec.Case, hist []CycleRecord, st *oracle.Stats) []run.Violation
 	LevelName   string
@@ -106,7 +108,13 @@ type Replay struct {
 }
 
 func (s *SchedCheck) RunCase(seed int64, index int, tier string, env *run.Env) run.CaseResult {
-	c := gen.Generate(s.Profile, seed, index, tier)
+	var c *spec.Case
+	if s.Gen != nil {
+		c = s.Gen(seed, index, tier)
+	}
+	if c == nil {
+		c = gen.Generate(s.Profile, seed, index, tier)
+	}
 	c.Property = s.Id
 	if s.Mutate != nil {
 		s.Mutate(c, seed, index)
